@@ -27,8 +27,9 @@ EXTENDS CIntBV, TLC, Json, CSV, IOUtils
 CONSTANTS Fams, Seed, Stride,
           D2Stride            \* extra thinning of the depth-2 families (1 = all)
 
-VARIABLES fam, op, op2, a, b, c, i, j, k, ph
-vars == <<fam, op, op2, a, b, c, i, j, k, ph>>
+VARIABLES fam, op, op2, a, b, c, i, j, k, ph,
+          hb          \* hash of the case coordinates (computed once per case)
+vars == <<fam, op, op2, a, b, c, i, j, k, ph, hb>>
 
 TSeq == <<"bool", "char", "uchar", "short", "ushort", "int", "uint", "long", "ulong", "enum">>
 TIdx(t) == CHOOSE n \in 1..Len(TSeq) : TSeq[n] = t
@@ -37,9 +38,6 @@ BinSeq == <<"mul", "div", "mod", "add", "sub", "shl", "shr", "lt", "gt", "le", "
 UnSeq == <<"pos", "neg", "bnot", "lnot">>
 AsgSeq == <<"mul", "div", "mod", "add", "sub", "shl", "shr", "band", "bxor", "bor">>
 KindSeq == <<"preinc", "predec", "postinc", "postdec">>
-OIdx(o) == IF \E n \in 1..Len(BinSeq) : BinSeq[n] = o THEN CHOOSE n \in 1..Len(BinSeq) : BinSeq[n] = o
-           ELSE IF \E n \in 1..4 : UnSeq[n] = o THEN CHOOSE n \in 1..4 : UnSeq[n] = o
-           ELSE IF \E n \in 1..4 : KindSeq[n] = o THEN CHOOSE n \in 1..4 : KindSeq[n] = o ELSE 0
 (* one operator per lowering class of codegen.c / eval2 *)
 D2Ops1 == {"mul", "div", "add", "sub", "shl", "shr", "lt", "band"}
 D2Ops2 == {"mul", "mod", "add", "shr", "shl", "ge", "eq", "bxor", "lor"}
@@ -89,11 +87,18 @@ VT(t) == IF Deep THEN TLCGet(13)[t] ELSE TLCGet(11)[t]
 VS(t) == IF Deep THEN TLCGet(14)[t] ELSE TLCGet(12)[t]
 NV(t) == IF t = "-" THEN 1 ELSE Len(VT(t))
 
-Hash(ii, jj, kk) == ii * 31 + jj * 37 + kk * 41 + OIdx(op) * 101 + OIdx(op2) * 59
-                    + (IF a = "-" THEN 0 ELSE TIdx(a) * 7) + (IF b = "-" THEN 0 ELSE TIdx(b) * 13)
-                    + (IF c = "-" THEN 0 ELSE TIdx(c) * 17)
-Pick(ii, jj, kk) == LET st == IF fam \in {"d2l", "d2r"} THEN Stride * D2Stride ELSE Stride
-                    IN (Hash(ii, jj, kk) + Seed) % st = 0
+OIdxOf(o) == IF \E n \in 1..Len(BinSeq) : BinSeq[n] = o THEN CHOOSE n \in 1..Len(BinSeq) : BinSeq[n] = o
+             ELSE IF \E n \in 1..4 : UnSeq[n] = o THEN CHOOSE n \in 1..4 : UnSeq[n] = o
+             ELSE IF \E n \in 1..4 : KindSeq[n] = o THEN CHOOSE n \in 1..4 : KindSeq[n] = o ELSE 0
+TI(t) == IF t = "-" THEN 0 ELSE TIdx(t)
+CaseHash(cs) == OIdxOf(cs[2]) * 101 + OIdxOf(cs[3]) * 59 + TI(cs[4]) * 7 + TI(cs[5]) * 13 + TI(cs[6]) * 17
+(* the depth-2 families are thinned by whole cases (D2Stride), every family by value choice (Stride) *)
+CasePicked(cs) == cs[1] \in {"d2l", "d2r"} => (CaseHash(cs) + Seed) % D2Stride = 0
+(* the small families (unary, casts, the conversion contexts, ++/--) are always enumerated completely;
+   depth 2 is thinned by whole cases already, so its value choices are thinned 8 times less *)
+VStride == IF fam \in {"un", "cast", "init", "arg", "ret", "assign", "test", "incdec"} THEN 1
+           ELSE IF fam \in {"d2l", "d2r"} /\ Stride >= 8 THEN Stride \div 8 ELSE Stride
+Pick(ii, jj, kk) == (hb + ii * 31 + jj * 37 + kk * 41 + Seed) % VStride = 0
 
 LeafJ(t, n) == [k |-> "leaf", t |-> t, v |-> VS(t)[n]]
 LeafZ(t, n) == Leaf(t, VT(t)[n])
@@ -147,10 +152,12 @@ Emit(ii, jj, kk) == With(Expect(ii, jj, kk), LAMBDA r : EmitR(r, ii, jj, kk))
 
 Init == /\ ph = 0 /\ i = 0 /\ j = 0 /\ k = 0
         /\ \E cs \in Cases : /\ cs[1] \in Fams
+                             /\ CasePicked(cs)
+                             /\ hb = CaseHash(cs)
                              /\ fam = cs[1] /\ op = cs[2] /\ op2 = cs[3] /\ a = cs[4] /\ b = cs[5] /\ c = cs[6]
 Unary == fam \in {"un", "cast", "init", "arg", "ret", "assign", "test", "incdec"}
 Next == /\ ph = 0 /\ ph' = 1
-        /\ UNCHANGED <<fam, op, op2, a, b, c>>
+        /\ UNCHANGED <<fam, op, op2, a, b, c, hb>>
         /\ \E ii \in 1..NV(a), jj \in 1..(IF Unary THEN 1 ELSE NV(b)), kk \in 1..NV(c) :
              /\ Pick(ii, jj, kk)
              /\ Emit(ii, jj, kk)
